@@ -39,6 +39,21 @@ func hostileMembers(cfg gen.Config) []member {
 			{Kind: "object", Props: []*fam.Prop{{Label: "a", Spec: &fam.Spec{Kind: "string"}}}}, {Kind: "object", Props: []*fam.Prop{{Label: "p", Spec: bad()}}}}}}}}})
 		out = append(out, member{name: k + " in allOf branch", cfg: cfg, root: &fam.Spec{Kind: "object", AllOf: []*fam.Spec{
 			{Kind: "object", Props: []*fam.Prop{{Label: "a", Spec: &fam.Spec{Kind: "string"}}}}, {Kind: "object", Props: []*fam.Prop{{Label: "p", Spec: bad()}}}}}})
+		// ... as a property of a node that ALSO carries allOf / anyOf (the struct built from the properties is superseded by the
+		// composition, the properties are still part of the schema)
+		objA := func() *fam.Spec { return &fam.Spec{Kind: "object", Props: []*fam.Prop{{Label: "a", Spec: &fam.Spec{Kind: "string"}}}} }
+		objB := func() *fam.Spec { return &fam.Spec{Kind: "object", Props: []*fam.Prop{{Label: "b", Spec: &fam.Spec{Kind: "integer"}}}} }
+		out = append(out, member{name: k + " as a property next to allOf", cfg: cfg, root: &fam.Spec{Kind: "object", Props: []*fam.Prop{{Label: "p", Spec: bad()}}, AllOf: []*fam.Spec{objA(), objB()}}})
+		dn := &fam.Spec{Kind: "object", Ref: "$defs", Props: []*fam.Prop{{Label: "p", Spec: bad()}}, AnyOf: []*fam.Spec{objA(), objB()}}
+		out = append(out, member{name: k + " as a property next to anyOf in a definition", cfg: cfg, root: &fam.Spec{Kind: "object", Props: []*fam.Prop{{Label: "r", Spec: dn}}}})
+		// ... as a branch ITSELF (not inside a branch's properties), next to a primitive branch
+		switch k {
+		case "empty-enum", "nonprimitive-enum", "unknown-type", "missing-definition", "bad-pointer":
+			out = append(out, member{name: k + " as an anyOf branch itself", cfg: cfg, root: &fam.Spec{Kind: "object", Props: []*fam.Prop{{Label: "u", Spec: &fam.Spec{Kind: "any", AnyOf: []*fam.Spec{bad(), {Kind: "integer"}}}}}}})
+			out = append(out, member{name: k + " as an allOf branch itself", cfg: cfg, root: &fam.Spec{Kind: "object", Props: []*fam.Prop{{Label: "u", Spec: &fam.Spec{Kind: "any", AllOf: []*fam.Spec{bad(), {Kind: "string", NoType: true, Kw: []string{"maxLength"}}}}}}}})
+			dd := &fam.Spec{Kind: "object", Ref: "$defs", Props: []*fam.Prop{{Label: "xs", Spec: &fam.Spec{Kind: "array", Items: &fam.Spec{Kind: "any", AnyOf: []*fam.Spec{{Kind: "integer"}, bad()}}}}}}
+			out = append(out, member{name: k + " as an anyOf branch of array items in a definition", cfg: cfg, root: &fam.Spec{Kind: "object", Props: []*fam.Prop{{Label: "r", Spec: dd}}}})
+		}
 	}
 	return out
 }
